@@ -4,7 +4,7 @@ import Arc.Generated.C25
 /-! Model driver for C25 (reads ops on stdin, prints one line per op).
 
 ops
-  facts <statPartFallback> <deleteRemovesPart> <presenceNeedsFinal> <promoteAfterVerdict>   (0/1; must equal the generated facts)
+  facts <statPartFallback> <deleteRemovesPart> <presenceNeedsFinal> <promoteAfterVerdict> <resumeFullPart>   (0/1; must equal the generated facts)
   new <contentHex> <maxAttempts> <finalHex|none> <partHex|none>          (new manifest file + replica state)
   proc                                                                    (a new processEntry call)
   att <o1,o2,…|->                                                         (one attempt; one outcome per candidate peer)
@@ -68,12 +68,12 @@ def bit? (s : String) : Option Bool :=
 
 def stepC25 (s : DS) (fs : List String) : DS × String :=
   match fs with
-  | ["facts", a, b, c, d] =>
-    match bit? a, bit? b, bit? c, bit? d with
-    | some a, some b, some c, some d =>
-      let f : Facts := ⟨a, b, c, d⟩
+  | ["facts", a, b, c, d, e] =>
+    match bit? a, bit? b, bit? c, bit? d, bit? e with
+    | some a, some b, some c, some d, some e =>
+      let f : Facts := ⟨a, b, c, d, e⟩
       if f = Arc.Generated.C25.facts then ({ s with f := f }, "ok") else (s, "facts-differ-from-generated")
-    | _, _, _, _ => (s, "bad-op")
+    | _, _, _, _, _ => (s, "bad-op")
   | ["new", c, m, fi, pa] =>
     match bytes? c, nat? m, file? fi, file? pa with
     | some c, some m, some fi, some pa =>
